@@ -12,9 +12,18 @@ import (
 
 	"github.com/VKCOM/tl/pkg/basictl"
 	"verifh/gen/factory"
-	"verifh/gen/factory_bytes"
+	_ "verifh/gen/factory_bytes" // init() installs the bytes constructors; its CreateObject* header functions do not exist with --split-internal
 	"verifh/gen/meta"
 )
+
+// the bytes variant through the registry item (what factory_bytes.CreateObjectFromName does when it exists)
+func regBytesObj(name string) meta.Object {
+	it := meta.FactoryItemByTLName(name)
+	if it == nil {
+		return nil
+	}
+	return it.CreateObjectBytes()
+}
 
 type regTL2Writer interface {
 	WriteTL2(w []byte, tctx *basictl.TL2WriteContext) []byte
@@ -61,9 +70,8 @@ func init() {
 		for _, it := range meta.GetAllTLItems() {
 			a, b := it.CreateObject(), it.CreateObjectBytes()
 			if reflect.TypeOf(a) != reflect.TypeOf(b) {
-				fb := factory_bytes.CreateObjectFromName(it.TLName())
 				fs := factory.CreateObjectFromName(it.TLName())
-				if reflect.TypeOf(fb) != reflect.TypeOf(b) || reflect.TypeOf(fs) != reflect.TypeOf(a) {
+				if reflect.TypeOf(fs) != reflect.TypeOf(a) {
 					parts = append(parts, it.TLName()+"!factory")
 				} else {
 					parts = append(parts, it.TLName())
@@ -98,7 +106,7 @@ func init() {
 			sout = regWriteAll(so, tl2)
 		}
 		// 2. bytes variant
-		bo := factory_bytes.CreateObjectFromName(f[3])
+		bo := regBytesObj(f[3])
 		brest, berr := bo.ReadTL1Boxed(in)
 		var bout regOut
 		if berr == nil {
@@ -109,13 +117,13 @@ func init() {
 			return res
 		}
 		// 3. what the string variant wrote (sorted, duplicate free) read by the bytes variant: all formats must agree
-		b2 := factory_bytes.CreateObjectFromName(f[3])
+		b2 := regBytesObj(f[3])
 		if _, err := b2.ReadTL1Boxed(sout.t1); err != nil {
 			return res + " canon=unreadable"
 		}
 		res += " canon=" + regEq(sout, regWriteAll(b2, tl2))
 		// 4. the JSON the string variant wrote, read by both variants
-		s3, b3 := factory.CreateObjectFromName(f[3]), factory_bytes.CreateObjectFromName(f[3])
+		s3, b3 := factory.CreateObjectFromName(f[3]), regBytesObj(f[3])
 		e1 := s3.ReadJSONGeneral(&basictl.JSONReadContext{}, &basictl.JsonLexer{Data: sout.js})
 		e2 := b3.ReadJSONGeneral(&basictl.JSONReadContext{}, &basictl.JsonLexer{Data: sout.js})
 		if e1 != nil || e2 != nil {
